@@ -602,11 +602,22 @@ impl<'a> G<'a> {
         let addr = self.assocs[i].addr;
         match self.r.below(6) {
             0..=2 => {
-                let p = *self.r.pick(&[1000u64, 3000, 5000, 7001, 700]);
                 let c = *self.r.pick(&[7u8, 8, 15, 1]);
-                self.line(&format!("poll {addr} {p} {c}"));
-                self.assocs[i].npolls += 1;
-                self.assocs[i].periods.push(p);
+                if self.r.chance(1, 8) {
+                    // a demand-only poll: a period that cannot be added to the clock (`Duration::MAX`), demanded at
+                    // once or later — it runs when demanded and never by itself (S180)
+                    self.line(&format!("poll {addr} {} {c}", u64::MAX));
+                    let k = self.assocs[i].npolls;
+                    self.assocs[i].npolls += 1;
+                    if self.r.chance(2, 3) {
+                        self.line(&format!("demand {addr} {k}"));
+                    }
+                } else {
+                    let p = *self.r.pick(&[1000u64, 3000, 5000, 7001, 700]);
+                    self.line(&format!("poll {addr} {p} {c}"));
+                    self.assocs[i].npolls += 1;
+                    self.assocs[i].periods.push(p);
+                }
             }
             3 | 4 => {
                 let k = self.r.below(self.assocs[i].npolls.max(1) as u64 + 1);
